@@ -68,7 +68,7 @@ CHECKS = {
         "Tie: each pass alone and composed (real code via hook) vs the compiled model on synthetic adversarial text (all token bigrams in the thorough tier) incl. the fault class; Operator.Run end to end.",
    design="§7 C02", technique="Lean 4 proof (per-pass lexical invariants over all texts) + differential correspondence + lexical oracle"),
  "C19": dict(
-   text="Lean theorems: C19_generate_no_runtime_fault (for every input, include tree, configuration and map order, generate never reaches Fault.runtime — every Go index/slice of the modelled code is a guarded operation in the model — under the hypothesis EngineShape: the engine prints balanced text and answers every query), C19_cleanUp_total (the group scanner findGroupBodyEnd/removeGroup and both flag loops stay in range on balanced text; proved via a left-to-right scanner bal with the escape state of utils.IsEscaped, scanClose_shape/scanClose_of_bal, removeGroup_balanced, and state-preservation lemmas for the four string passes), C19_escaped_paren_is_text (D04 witness). Termination: the model is total. "
+   text="Lean theorems: C19_generate_no_runtime_fault (for every input, include tree, configuration and map order, generate never reaches Fault.runtime — every Go index/slice of the modelled code is a guarded operation in the model — under the hypothesis EngineShape: the engine prints balanced text and answers every query), C19_cleanUp_total (the group scanner findGroupBodyEnd/removeGroup and both flag loops stay in range on balanced text; proved via a left-to-right scanner bal with the escape state of utils.IsEscaped, scanClose_shape/scanClose_of_bal, removeGroup_balanced, and state-preservation lemmas for the four string passes), C19_escaped_paren_is_text (D04 witness). No hang: the model is total, and where a loop is modelled with fuel the fuel is proved never to be used up — C19_flag_loops_reach_exit (both flag-removal loops: any larger fuel gives the same result, for every text), C19_scanners_reach_end, C19_include_bound_harmless (a successful parse is the same under any larger include-depth bound). "
         "Tie: token-level fuzz (directive fragments, metacharacters, escaped parentheses before ?i:, braces, quotes, control and non-ASCII bytes; stdin and include file) through Operator.Run and through the clean-up passes in real code and model — same result or same fault class; binary on stdin (no runtime error text, no timeout); EngineShape monitored on every Join result.",
    design="§7 C19", technique="Lean 4 proof (unreachability of runtime faults; invariant: balanced text) + token-level differential fuzzing"),
  "C03": dict(
